@@ -52,7 +52,7 @@ type env struct {
 	stride   int
 	posCap   int // at most this many mutated token positions per declaration
 	thorough bool
-	progs    []progSpec
+	progs    []cand
 }
 
 // ---------------------------------------------------------------- (a) token strings
@@ -585,11 +585,11 @@ func buildEnv(tier string) *env {
 	if v := os.Getenv("C11_POSCAP"); v != "" {
 		fmt.Sscan(v, &e.posCap)
 	}
-	e.progs = progSpecs(e.thorough)
+	e.progs = buildCands(e.thorough)
 	if v := os.Getenv("C11_PROG_STEP"); v != "" { // development aid: every n-th program only
 		var n int
 		fmt.Sscan(v, &n)
-		var keep []progSpec
+		var keep []cand
 		for i, p := range e.progs {
 			if i%n == 0 {
 				keep = append(keep, p)
